@@ -146,14 +146,17 @@ ExpPP(s, i) == PathTo(s, s.parent[i])
 FileRec(s, i) == [name |-> s.name[i], pp |-> ExpPP(s, i), cr |-> s.cr[i], mo |-> s.mo[i]]
 
 \* O: sequence of [id, pp].  Complete, exact, once -- modulo the filter's DON'T-CAREs
-ListingOK(s, j, O) ==
-    LET ids == { O[x].id : x \in DOMAIN O }
-        F == EffFilter(j) IN
+ListingOKF(s, j, O, F) ==
+    LET ids == { O[x].id : x \in DOMAIN O } IN
     /\ Cardinality(ids) = Len(O)                                                   \* exactly once
     /\ \A x \in DOMAIN O : /\ O[x].id \in Scope(s, j)                              \* nothing foreign
                            /\ (j.call # "infolder" => O[x].pp = ExpPP(s, O[x].id)) \* correct parent path
                            /\ Verdict(F, FileRec(s, O[x].id)) # "mustnot"          \* nothing that does not match
     /\ \A i \in Scope(s, j) : Verdict(F, FileRec(s, i)) = "must" => i \in ids      \* every matching file
+
+ListingOK(s, j, O) == ListingOKF(s, j, O, EffFilter(j))
+\* the client model's `results` are the files WALKED (the filter is applied on the way out)
+WalkedOK(s, j, O) == ListingOKF(s, j, O, NoFilter)
 
 \* number of requests of a fault-free call on a fresh client (token + site + walk)
 RECURSIVE SumPages(_, _)
@@ -329,13 +332,13 @@ ClientInit ==
 (* ------------------------------ invariants ------------------------------ *)
 \* `out` is the outcome of the last finished call (reset when the next call starts); every call's
 \* outcome is therefore `out` in some reachable state and the invariants below see each of them.
-\* The model's `results` are unfiltered: ListingOK is evaluated with the job's effective filter,
-\* which for the exhaustive specification is NoFilter.
+\* The model's `results` are unfiltered (WalkedOK); GraphTrace applies the job's filter verdicts to
+\* the observed result at the Return event.
 \* (list_files_in_folder on a path the server does not have is answered 404 by the healthy
 \*  server itself: the call is infeasible and raises the request error)
 Feasible(s, j) == j.call = "infolder" => (Resolve(s, j.targets[1]) >= 0 /\ IsFolder(s, Resolve(s, j.targets[1])))
 
-Inv_Complete == (out.t = "return" /\ ~out.swallowed) => ListingOK(srv, job, out.res)
+Inv_Complete == (out.t = "return" /\ ~out.swallowed) => WalkedOK(srv, job, out.res)
 Inv_Once == LET O == out.res IN Cardinality({ O[y].id : y \in DOMAIN O }) = Len(O)
 Inv_Closed == (pc # "open") => (opened = closed)                  \* control outside _send
 Inv_Family == out.t = "raise" =>
@@ -346,7 +349,7 @@ Inv_Family == out.t = "raise" =>
 Inv_CacheOnlyAfterSuccess == (tokenC => okTok) /\ (siteC => okSite)
 \* a call that meets no injected fault (in particular the retry) returns, completely
 Inv_RetryComplete == (out.t # "none" /\ ~out.hit) =>
-        IF Feasible(srv, job) THEN out.t = "return" /\ ListingOK(srv, job, out.res)
+        IF Feasible(srv, job) THEN out.t = "return" /\ WalkedOK(srv, job, out.res)
         ELSE out.t = "raise" /\ out.err.cls = "request" /\ out.err.status = 404
 \* the first call on a fresh client sends exactly NReq requests; later ones save the cached two
 Inv_ReqCount == (out.t = "return" /\ ~out.hit /\ ~out.swallowed /\ Feasible(srv, job)) =>
